@@ -3,7 +3,14 @@ line; all events are validated against a Layer-A trace specification."""
 import concurrent.futures as cf
 import os
 
-from vlib import ToolError, run_driver, validate_trace, workdir, write_jsonl, read_jsonl, NCPU
+from vlib import ToolError, DriverDied, run_driver, validate_trace, workdir, write_jsonl, read_jsonl, NCPU
+
+
+def _harness_own_failure(msg):
+    """The driver's top level caught a panic ("internal error", exit status 2) that was raised in the harness's own sources
+    (an assertion of the driver, a scenario it cannot read): a tooling failure, never an observation about the code under
+    test.  A panic whose location is in the tree under test, a signal, an abort or any other exit status is an observation."""
+    return "internal error" in msg and "/repo/" not in msg and "driver timed out" not in msg
 
 
 def run_oneshot(rep, pid, name, subcmd, scenarios, templates, seed, module, nproc=None, pre_args=None,
@@ -23,7 +30,7 @@ def run_oneshot(rep, pid, name, subcmd, scenarios, templates, seed, module, npro
         try:
             run_driver([subcmd] + (pre_args or [templates]) + [sp, tp], env={"VERIF_SEED": seed})
             evs = read_jsonl(tp)
-        except ToolError as first:
+        except DriverDied as first:
             # the driver process died (an abort, e.g. a panic that crossed the C boundary, or a failed allocation): run the
             # scenarios of this part one per process; a scenario that kills its process is recorded as data, not as a tool error
             evs = []
@@ -33,11 +40,15 @@ def run_oneshot(rep, pid, name, subcmd, scenarios, templates, seed, module, npro
                 try:
                     run_driver([subcmd] + (pre_args or [templates]) + [s1, t1], env={"VERIF_SEED": seed})
                     evs.extend(read_jsonl(t1))
-                except ToolError as e:
+                except DriverDied as e:
+                    if _harness_own_failure(str(e)):
+                        raise
                     evs.append({"ev": "crash", "id": scn.get("id", ""), "op": scn.get("op", ""), "prop": pid, "what": str(e)[-300:]})
                 for f in (s1, t1):
                     if os.path.exists(f):
                         os.unlink(f)
+            if not any(e.get("ev") == "crash" for e in evs) and _harness_own_failure(str(first)):
+                raise first
             if not any(e.get("ev") == "crash" for e in evs):
                 # every scenario passes on its own, the sequence in one process does not: a failure that depends on what
                 # the process did before (state kept between calls)
